@@ -235,7 +235,14 @@ func c19Type(b *bytes.Buffer, t *yang.YangType, depth int) {
 	if t == nil || depth > 6 {
 		return
 	}
-	fmt.Fprintf(b, " type{%s k=%s def=%q hd=%v fd=%d path=%q opt=%v", t.Name, t.Kind, t.Default, t.HasDefault, t.FractionDigits, t.Path, t.OptionalInstance)
+	fmt.Fprintf(b, " type{%s k=%s def=%q hd=%v fd=%d path=%q opt=%v units=%q base=%v", t.Name, t.Kind, t.Default, t.HasDefault, t.FractionDigits, t.Path,
+		t.OptionalInstance, t.Units, t.Base != nil)
+	if t.Root != nil {
+		fmt.Fprintf(b, " root=%s/%s/self=%v/opt=%v/def=%q/units=%q", t.Root.Name, t.Root.Kind, t.Root == t, t.Root.OptionalInstance, t.Root.Default, t.Root.Units)
+	}
+	if len(t.POSIXPattern) > 0 {
+		fmt.Fprintf(b, " ppat=%q", t.POSIXPattern)
+	}
 	if len(t.Range) > 0 {
 		fmt.Fprintf(b, " range=%s", t.Range)
 	}
@@ -780,13 +787,46 @@ func c19Readers(iters int, seed int64, repo string) int {
 
 // ------------------------------------------------------------------------------- mode errsets
 
-const c19NErrSets = 17
+const c19NErrSets = 20
 
 // c19ErrSet: a module set of its own (own file names, own line numbers) whose Process reports errors.
 // The sets share the TEXT of the offending constructs -- whatever the library remembers about such a construct
 // must not leak from one set into another.
 func c19ErrSet(k int) c19Set {
 	K := strconv.Itoa(k)
+	if k >= 17 {
+		// 17: a leaf of every built-in type that can be used bare;  18, 19: the same built-ins with the
+		// substatements that do NOT restrict them (require-instance true/false, an extension statement inside
+		// the type statement), typedefs that only add default/units to a bare built-in, leafrefs with
+		// require-instance.  Error free: the whole dump (every YangType field, the root type too) is compared.
+		// A type statement that "adds nothing" must still not touch what the plain users of the built-in see.
+		bare := []string{"int8", "int16", "int32", "int64", "uint8", "uint16", "uint32", "uint64", "string", "boolean", "empty", "binary", "instance-identifier"}
+		var b strings.Builder
+		b.WriteString("module builtin-" + K + " {\n  namespace \"urn:builtin:" + K + "\";\n  prefix b" + K + ";\n  extension note { argument text; }\n")
+		for i, t := range bare {
+			name := "l" + strconv.Itoa(i)
+			switch {
+			case k == 17:
+				b.WriteString("  leaf " + name + " { type " + t + "; }\n")
+			case t == "instance-identifier":
+				b.WriteString("  leaf " + name + " { type " + t + " { require-instance " + map[int]string{18: "false", 19: "true"}[k] + "; } }\n")
+				b.WriteString("  leaf " + name + "-plain { type " + t + "; }\n")
+			case (i+k)%2 == 0:
+				b.WriteString("  leaf " + name + " { type " + t + " { b" + K + ":note \"nothing added\"; } description \"d\"; status deprecated; }\n")
+			default:
+				b.WriteString("  typedef td" + strconv.Itoa(i) + " { type " + t + "; units \"u" + K + "\"; " +
+					map[bool]string{true: "", false: "default " + map[string]string{"string": "\"s\"", "boolean": "true", "binary": "\"AA==\""}[t] + "; "}[t == "empty" || (t != "string" && t != "boolean" && t != "binary")] +
+					"}\n  leaf " + name + " { type td" + strconv.Itoa(i) + "; }\n  leaf " + name + "-plain { type " + t + "; }\n")
+			}
+		}
+		if k >= 18 {
+			b.WriteString("  typedef ii { type instance-identifier { require-instance false; } }\n  leaf via-ii { type ii; }\n" +
+				"  leaf target { type uint8; }\n  leaf ref-loose { type leafref { path \"../target\"; require-instance false; } }\n" +
+				"  leaf ref-strict { type leafref { path \"../target\"; require-instance true; } }\n  leaf ref-plain { type leafref { path \"../target\"; } }\n")
+		}
+		b.WriteString("}\n")
+		return c19Set{label: "builtin-" + K, srcs: []c19Src{{"builtin-" + K + ".yang", b.String()}}}
+	}
 	if k >= 13 {
 		// 13, 14: plain lists and leaf-lists WITHOUT any bound or order statement (their dump shows the default
 		// bounds and the type default of the leaf-list);  15, 16: the same shapes, and a second module that
